@@ -49,7 +49,7 @@ type connInfo struct {
 	fdClosed   bool
 	closeErr   string
 	inCallback bool
-	faulted    bool // an errno was injected on this connection
+	faulted    bool   // an errno was injected on this connection
 	fatal      string // a non-retryable errno was delivered to a system call made for this connection
 }
 
@@ -57,8 +57,9 @@ type state struct {
 	loop      *gnet.VerifLoop
 	grant     chan struct{}
 	log       []string
-	names     map[int]string // fd number -> current symbolic name
+	names     map[int]string    // fd number -> current symbolic name
 	byPtr     map[string]string // connection object -> symbolic name (bound at register0)
+	keptDups  []int             // descriptors Conn.Dup handed to the "user" (this driver): the user's, never the framework's
 	conns     map[string]*connInfo
 	order     []string
 	pending   []net.Conn // connected peers not yet accepted
@@ -475,6 +476,12 @@ func runHop(op, arg string, c gnet.Conn, ci *connInfo) string {
 			ci.pendingAsync(flat)
 		}
 		return "err=" + errName(err)
+	case "dup": // the user takes a duplicate of the descriptor and keeps it
+		fd, err := c.Dup()
+		if err == nil {
+			st.keptDups = append(st.keptDups, fd)
+		}
+		return "n=0 err=" + errName(err)
 	case "wake":
 		return "err=" + errName(c.Wake(nil))
 	case "close":
@@ -689,6 +696,10 @@ func teardown() {
 		}
 	}
 	st.loop.CloseAll()
+	for _, fd := range st.keptDups { // a life that did not reach its end
+		_ = unix.Close(fd)
+	}
+	st.keptDups = nil
 	for _, ci := range st.conns {
 		if ci.peer != nil {
 			_ = ci.peer.Close()
@@ -1065,6 +1076,15 @@ func endOfLife() {
 			fail(fmt.Sprintf("C07: descriptor of %s was never closed by the framework", cid))
 		}
 	}
+	// C07: descriptors handed to the user are never closed by the framework
+	for _, fd := range st.keptDups {
+		if _, err := unix.FcntlInt(uintptr(fd), unix.F_GETFD, 0); err != nil {
+			fail(fmt.Sprintf("C07: a descriptor handed to the user by Conn.Dup (%d) was closed by the framework", fd))
+		} else {
+			_ = unix.Close(fd)
+		}
+	}
+	st.keptDups = nil
 }
 
 func main() {
